@@ -418,6 +418,31 @@ pub fn run(ctx: &Ctx, rep: &mut Report) {
         rep.add_space(&format!("every valid {}-card hand (canonical order): valid, validated == unvalidated == oracle", n), &acc, t0, "the complete set of hands that must NOT rank 0");
     }
 
+    // (3c) call histories over a small alphabet of hands (valid, duplicate, corrupt, blank) and observations
+    {
+        let al = alphabet(false, ctx.seed);
+        let mut items = Vec::new();
+        for n in [2usize, 5, 6, 7] {
+            let valid: Vec<u32> = al[..n].to_vec();
+            let mut dup = valid.clone();
+            dup[n - 1] = dup[0];
+            let mut corrupt = valid.clone();
+            corrupt[n / 2] = al[9];
+            let mut blank = valid.clone();
+            blank[0] = 0;
+            let mut rev = valid.clone();
+            rev.reverse();
+            for h in [valid, dup, corrupt, blank, rev] {
+                let size = AnyHand::size_name(n);
+                items.push(Case::w32(&format!("{}.is_valid", size), &h));
+                if n >= 5 {
+                    items.push(Case::w32(&format!("{}.hand_rank_value_validated", size), &h));
+                }
+            }
+        }
+        super::history2(rep, judge, &items);
+    }
+
     // (4) thorough: every slot x all 2^32 words
     if thorough {
         let kind = monitor::kind_id("one-free-slot");
